@@ -641,6 +641,27 @@ func Build(c *Case) (b *Built, panicked interface{}) {
 		} else {
 			b.ST, b.Err = trie.NewSlimTrie(b.Encoder, keys, b.Values, c.Opt.ToOpt())
 		}
+		// the slices passed to the builder are the caller's again: they are
+		// overwritten at once (the key slice, every value, the bytes of []byte
+		// values); the reference model keeps copies of its own
+		for i := range keys {
+			keys[i] = "\xa5overwritten-by-the-caller"
+		}
+		if b.Values != nil {
+			rv := reflect.ValueOf(b.Values)
+			for i := 0; i < rv.Len(); i++ {
+				e := rv.Index(i)
+				if e.Kind() == reflect.Slice && e.Type().Elem().Kind() == reflect.Uint8 {
+					bs := e.Bytes()
+					for j := range bs {
+						bs[j] = 0x5a
+					}
+				}
+				if e.CanSet() {
+					e.Set(reflect.Zero(e.Type()))
+				}
+			}
+		}
 	}()
 	return b, panicked
 }
